@@ -68,6 +68,15 @@ def run(tier, seed):
                 v.violation("FormFactor(%s, array) modifies the array of sin(theta)/lambda values it is given" % el, desc)
             elif arr1.shape != wantarr.shape or np.abs(arr1 - wantarr).max() > 1e-9 * max(1.0, np.abs(wantarr).max()) or not np.array_equal(arr1, arr2):
                 v.violation("FormFactor(%s, array of s) differs from the values for the individual s" % el, desc)
+            # the caller refills the SAME array object (a reused buffer): the answer is for the present contents
+            sg_[:] = sg_[::-1] * 0.5
+            arr3 = np.asarray(structure.FormFactor(el, sg_), dtype=float)
+            want3 = np.array([sum(c[i] * math.exp(-c[i + 4] * s * s) for i in range(4)) + c[8] for s in sg_])
+            sg_ += 0.125
+            arr4 = np.asarray(structure.FormFactor(el, sg_), dtype=float)
+            want4 = np.array([sum(c[i] * math.exp(-c[i + 4] * s * s) for i in range(4)) + c[8] for s in sg_])
+            if np.abs(arr3 - want3).max() > 1e-9 * max(1.0, np.abs(want3).max()) or np.abs(arr4 - want4).max() > 1e-9 * max(1.0, np.abs(want4).max()):
+                v.violation("FormFactor(%s, array of s) answers for the earlier contents of an array that was refilled in place" % el, desc)
         except Exception as ex:
             v.violation("FormFactor(%s, array of s) raised %r" % (el, ex), desc)
         if min(vals) <= 0:
